@@ -123,7 +123,7 @@ func (r *Report) Own(s OwnSpec) {
 	byOwner := map[string]int{}
 	var firstPos = map[string]string{}
 	for _, site := range s.Sites {
-		if !inClass(r.P.FileClass(r.P.FuncPos(site.Fn))) {
+		if cls := r.P.FileClass(r.P.FuncPos(site.Fn)); !inClass(cls) && !(Outer(site.Fn).Synthetic == "package initializer" && inClass("prod")) {
 			continue
 		}
 		n++
